@@ -1294,7 +1294,7 @@ pub fn c18(case_seed: u64, acc: &mut Acc) {
 pub const META_C19: Meta = Meta {
     id: "C19",
     level: "exploration",
-    rule: "Cases from profile `layout-lines`: 0-5 blank lines before the header; after it any mix of blank lines, comment-only lines, trailing comments and ragged indentation; LF, CRLF and mixed endings, stray CRs (not part of a CRLF pair) in the blank run before a line terminator; rows at depth 0-4, repeat rows, rows right after `end loop`, last line with and without newline. 3% of the cases are small programs built around twin rows: rows on different lines with identical literal entries and 4-5 X on input columns, separated by other statements, blank lines, comments or a loop. The printer records the 1-based line on which it prints each row item; the reference says which row item produces the k-th yielded row; every DataRow.line must equal that recorded line (the same for all X/C expansions and loop iterations). 40% of the cases are additionally embedded as a Testcase in a generated .dig document (entities / CDATA, indentation varied) and loaded through dig::File::parse(..).load_test(0), and 30% of the static ones are iterated through try_iter_static: lines must be the same, relative to the test's own source. Non-trivial = >= 1 blank or comment line above a row and (a row at depth >= 1 or a repeat row); distinct by source text.",
+    rule: "Cases from profile `layout-lines`: 0-5 blank lines before the header; after it any mix of blank lines, comment-only lines, trailing comments and ragged indentation; LF, CRLF and mixed endings, stray CRs (not part of a CRLF pair) in the blank run before a line terminator; rows at depth 0-4, repeat rows, rows right after `end loop`, last line with and without newline. 3% of the cases are small programs built around twin rows: rows on different lines with identical literal entries and 4-5 X on input columns, separated by other statements, blank lines, comments or a loop. The printer records the 1-based line on which it prints each row item; the reference says which row item produces the k-th yielded row; every DataRow.line must equal that recorded line (the same for all X/C expansions and loop iterations). 40% of the cases are additionally embedded as a Testcase in a generated .dig document (entities / CDATA, indentation varied) and loaded through dig::File::parse(..).load_test(0), and 30% of the static ones are iterated through try_iter_static: lines must be the same, relative to the test's own source; a third of those documents get a second form with TWO tests of the same label whose sources differ only by 1-4 blank lines before the header (both padded beyond 1 KiB), loaded in either order - each must report lines relative to its own source. Non-trivial = >= 1 blank or comment line above a row and (a row at depth >= 1 or a repeat row); distinct by source text.",
     assumptions: &["reference interpreter decides which source row each yielded row comes from"],
     quick_cases: 120000,
     thorough_cases: 2000000,
@@ -1323,7 +1323,13 @@ pub fn c19(case_seed: u64, acc: &mut Acc) {
         acc.tag("twin_rows_with_ge4_X_on_different_lines");
     }
     // layout stress
-    case.layout_opts.leading_blank = r.below(6);
+    case.layout_opts.leading_blank = if r.chance(30, 1000) {
+        // line numbers just past 2^8 and 2^16
+        acc.tag("row_lines_beyond_2^8_or_2^16");
+        if r.chance(1, 8) { 65_530 + r.below(12) } else { 250 + r.below(12) }
+    } else {
+        r.below(6)
+    };
     case.layout_opts.eol = r.below(3) as u8;
     case.layout_opts.trailing_comments = *r.pick(&[0, 200, 500]);
     case.layout_opts.indent = r.below(4) as u8;
@@ -1404,6 +1410,62 @@ pub fn c19(case_seed: u64, acc: &mut Acc) {
                     return;
                 }
                 acc.tag("lines_compared_through_dig_document");
+                // two tests of ONE document (same label) whose sources differ only in the number
+                // of blank lines before the header, both padded beyond 1 KiB with comment lines:
+                // each reports lines relative to its own source, in whichever order they are loaded
+                if r.chance(300, 1000) {
+                    let d = 1 + r.below(4);
+                    let mut body = ran.pr.text.clone();
+                    if !body.ends_with('\n') {
+                        body.push('\n');
+                    }
+                    while body.len() < 1100 {
+                        body.push_str("# padding padding padding padding padding padding\n");
+                    }
+                    let shifted = format!("{}{}", "\n".repeat(d), body);
+                    let circ2 = Circuit {
+                        pins: circ.pins.clone(),
+                        tests: vec![TestDesc { label: Some("t".into()), source: body }, TestDesc { label: Some("t".into()), source: shifted }],
+                    };
+                    let doc2 = render(&circ2, &st, &mut r);
+                    let order: [usize; 2] = if r.chance(1, 2) { [0, 1] } else { [1, 0] };
+                    let lines_of = |tc: &digital_test_runner::TestCase| -> Vec<usize> {
+                        let run = run_bound(tc, &case.signals, &case.script, &RunOpts { max_steps: ran.rf.items.len() + 4, probe_after_end: 0, stop_at_error: true, seed: Some(case.rng_seed), continue_on: None });
+                        run.3.iter().filter_map(|s| if let RealItem::Row(r) = &s.item { Some(r.line) } else { None }).collect()
+                    };
+                    let loaded2 = guarded(|| {
+                        let f = digital_test_runner::dig::File::parse(&doc2).map_err(|e| err_chain(&e))?;
+                        let first = f.load_test(order[0]).map_err(|e| err_chain(&e))?;
+                        let second = f.load_test(order[1]).map_err(|e| err_chain(&e))?;
+                        Ok::<_, String>((first, second))
+                    });
+                    acc.evaluations += 2;
+                    match loaded2 {
+                        Ok(Ok((first, second))) => {
+                            let (l_first, l_second) = (lines_of(&first), lines_of(&second));
+                            let (l0, l1) = if order[0] == 0 { (l_first, l_second) } else { (l_second, l_first) };
+                            let want1: Vec<usize> = want.iter().map(|l| l + d).collect();
+                            if l0 != want || l1 != want1 {
+                                acc.violation(
+                                    case_seed,
+                                    "dig-twin",
+                                    Finding::new("line-via-dig", format!("two tests whose sources differ by {d} leading blank lines, loaded in the order {order:?}: lines {l0:?} and {l1:?}, wanted {want:?} and {want1:?}")),
+                                    json!({"document": doc2}),
+                                );
+                                return;
+                            }
+                            acc.tag("twin_sources_in_one_document_compared");
+                        }
+                        Ok(Err(e)) => {
+                            acc.violation(case_seed, "dig-twin", Finding::new("dig-embedding-refused", e), json!({"document": doc2}));
+                            return;
+                        }
+                        Err(p) => {
+                            acc.violation(case_seed, "dig-twin", Finding::new(p.signature(), format!("{p:?}")), json!({"document": doc2}));
+                            return;
+                        }
+                    }
+                }
             }
             Ok(Err(e)) => {
                 acc.violation(case_seed, "dig", Finding::new("dig-embedding-refused", e), json!({"document": doc}));
